@@ -210,3 +210,60 @@ class SymDoc:
             if z3.is_true(model.eval(present, model_completion=True)):
                 out.append([list(key), cell.render(model)])
         return {'$obj': out}
+
+
+class ConcArray:
+    """concrete array of a replay / example document"""
+    persistent = True
+
+    def __init__(self, items):
+        self.items = items
+        self.oid = next_oid()
+
+    def array_iter(self, ex):
+        from .models_std import IterV
+        return BoxV([IterV('owned', VecV([conc_value(x) for x in self.items]))])
+
+
+class ConcDoc:
+    """concrete document (bridge JSON encoding); implements Object: `get` is an exact name lookup, dotted / indexed
+    keys go through the real Object::find MIR"""
+    persistent = True
+    as_object = True
+
+    def __init__(self, fields, path='doc'):
+        self.fields = {bytes(k): v for k, v in fields}
+        self.path = path
+        self.oid = next_oid()
+
+    def find_value(self, key):
+        v = self.fields.get(bytes(key))
+        if v is None and bytes(key) not in self.fields:
+            return Adt('Option', 0, 'None', [])
+        return Adt('Option', 1, 'Some', [conc_value(v, self.path + '/' + bytes(key).decode('utf-8', 'replace'))])
+
+    def lookup(self, key):
+        raise ValueError('concrete document')
+
+
+def conc_value(j, path='v'):
+    import struct
+    V = lambda name, items: Adt('Value', VALUE_VARIANTS.index(name), name, items)
+    if j is None:
+        return V('Null', [])
+    if isinstance(j, bool):
+        return V('Bool', [j])
+    if isinstance(j, list):
+        return V('Array', [Ref(PCont([ConcArray(j)]), 0)])
+    if isinstance(j, dict):
+        if '$f64' in j:
+            return V('Float', [FP(struct.unpack('<d', struct.pack('<Q', j['$f64']))[0])])
+        if '$i64' in j:
+            return V('Int', [mk_int(j['$i64'], 'i64')])
+        if '$u64' in j:
+            return V('UInt', [mk_int(j['$u64'], 'u64')])
+        if '$str' in j:
+            return V('String', [Adt('Cow', 0, 'Borrowed', [StrV(bytes(j['$str']))])])
+        if '$obj' in j:
+            return V('Object', [Ref(PCont([ConcDoc(j['$obj'], path + '.o')]), 0)])
+    raise ValueError('bad value %r' % (j,))
